@@ -196,13 +196,14 @@ def check_edges_and_value(res, facts, prop):
                     ch = set(spec_fields_changed(pre, post, RC_FIELDS))
                     ok = o.status == 'returned' and bool_of(o.ctx, o.ret) == val and bool_of(o.ctx, post.get(latch)) is False and ch <= {latch}
                     res.ob('R-RIBBON', '%s|latch=%s' % (meth, val), ok, 'returned %r, latch after %r, changed %s' % (o.ret, post.get(latch), sorted(ch)), where_of(facts, RCF + meth))
-        it = Interp(facts)
-        st = State()
-        rc, N = rb.controller(it, st)
-        pre = copy.deepcopy(rc)
-        outs, cell = run_method(it, st, RCF + 'finger_is_pressing', rc, [], genv={'BUFFER_CAPACITY': N})
-        for o in sem_iter(outs):
-            res.ob('R-RIBBON', 'finger_is_pressing is a pure getter', o.status == 'returned' and same(o.ret, pre.get('finger_is_pressing')) and not spec_fields_changed(pre, o.cells[cell], RC_FIELDS), 'returns %r' % (o.ret,), where_of(facts, RCF + 'finger_is_pressing'))
+        for pv in (False, True):
+            it = Interp(facts)
+            st = State()
+            rc, N = rb.controller(it, st, pressing=pv)
+            pre = copy.deepcopy(rc)
+            outs, cell = run_method(it, st, RCF + 'finger_is_pressing', rc, [], genv={'BUFFER_CAPACITY': N})
+            for o in sem_iter(outs):
+                res.ob('R-RIBBON', 'finger_is_pressing is a pure getter|%s' % pv, o.status == 'returned' and bool_of(o.ctx, o.ret) is pv and not spec_fields_changed(pre, o.cells[cell], RC_FIELDS), 'returns %r' % (o.ret,), where_of(facts, RCF + 'finger_is_pressing'))
         return
     # C16: value() = current_val / boundary, read-only
     it = Interp(facts)
